@@ -68,14 +68,22 @@ struct Runner {
         case M_INSERT: {
           ev.type = MapOp::INSERT; ev.value = static_cast<uint64_t>(o.a);
           ev.call = stamp();
-          ev.ok = db->insert(k, unodb::value_view{reinterpret_cast<const std::byte*>(val.data()), val.size()});
+          try {
+            ev.ok = db->insert(k, unodb::value_view{reinterpret_cast<const std::byte*>(val.data()), val.size()});
+          } catch (const std::bad_alloc&) {
+            ev.threw = true;
+          }
           ev.ret = stamp();
           break;
         }
         case M_REMOVE: {
           ev.type = MapOp::REMOVE;
           ev.call = stamp();
-          ev.ok = db->remove(k);
+          try {
+            ev.ok = db->remove(k);
+          } catch (const std::bad_alloc&) {
+            ev.threw = true;
+          }
           ev.ret = stamp();
           break;
         }
@@ -113,9 +121,9 @@ struct Runner {
         }
       }
       if (owns_any_mutex())
-        die("mutex-left-locked", "t" + std::to_string(tid) + ".op" + std::to_string(i) + " (" + std::to_string(o.kind) + ") returned with the index mutex held");
+        die("mutex-left-locked", "t" + std::to_string(tid) + ".op" + std::to_string(i) + " (" + std::to_string(o.kind) + (ev.threw ? ") threw std::bad_alloc (injected allocation failure)" : ") returned") + " with the index mutex held");
       op_end();
-      note(static_cast<uint64_t>(ev.ok) | (ev.value << 1) | (static_cast<uint64_t>(ev.visited.size()) << 40));
+      note(static_cast<uint64_t>(ev.ok) | (ev.value << 1) | (static_cast<uint64_t>(ev.visited.size()) << 40) | (static_cast<uint64_t>(ev.threw) << 60));
       log->push_back(std::move(ev));
     }
   }
@@ -142,7 +150,9 @@ struct Runner {
     join_all();
     auto fail = [&](const std::string& cls, const std::string& d) { if (res.ok) { res.ok = false; res.vclass = cls; res.detail = d; } };
     std::vector<MapOp> all;
-    for (auto& l : logs) for (auto& e : l) all.push_back(e);
+    uint64_t threw = 0;
+    for (auto& l : logs) for (auto& e : l) { if (e.threw) { threw++; continue; } all.push_back(e); }  // a failed operation must have had no effect
+    stats().bump("operations_failed_by_injected_allocation_failure", threw);
     MapState fin;
     if (!lin_check_map(all, init, &fin)) {
       std::string d = "history is not linearizable:";
